@@ -368,6 +368,22 @@ func (r *qRunner) settle() error {
 			if r.drainEvents() {
 				continue
 			}
+			// confirm: a goroutine can be parked for an instant on its way (lock hand-off, runtime
+			// internals); only a state that is still parked, with no report, in a second snapshot
+			// taken a little later counts as quiescent
+			time.Sleep(150 * time.Microsecond)
+			snap2 := goroutineStatuses()
+			for _, th := range r.threads() {
+				if th.state != tRunning && th.state != tBlocked {
+					continue
+				}
+				if st, ok := snap2[th.gid]; !ok || !qParked(st) || snap[th.gid] != st {
+					quiet = false
+				}
+			}
+			if !quiet || r.drainEvents() {
+				continue
+			}
 			for _, th := range r.threads() {
 				if th.state == tRunning {
 					th.state = tBlocked
